@@ -77,7 +77,7 @@ CLAIMS = {
         note='get_empty_leaves_indices iterator chain assumed in Verus and Kani-checked on the compiled code for all three backends (bounded: capacity 4 / 8). Known finding: PmTree::new zeroes the flags when it reopens an existing database (clauses reopen-*).',
         design='DESIGN.md §4 C15'),
     'C16': dict(
-        text='PARTIAL, function level: (1) the storage adapter utils::pm_tree::SledDB (put, put_batch, get, close, load, new / new_with_tries) is checked by Kani as compiled '
+        text='PARTIAL, function level: (1) the storage adapter utils::pm_tree::SledDB (put, put_batch, get, close, load) is checked by Kani as compiled '
              'against an engine stand-in with a SYMBOLIC fault plan: an engine write / flush / read / open failure is always an Err, Ok is returned only when exactly the given '
              'key and value reached the engine / the engine was flushed, load succeeds exactly on an existing database; (2) the persistent-tree adapter PmTree is verified by Verus: '
              'no mutator acknowledges (Ok) unless the tree dependency acknowledged and the stated leaf / mark effect happened (a swallowed storage error fails the postcondition), '
@@ -86,7 +86,7 @@ CLAIMS = {
         note='NOT decided (no contract within reach): durability of sled itself (what survives a crash or a failed flush), the internals of the external pmtree crate (which keys it writes, '
              'its load path), every-history equality of root / leaves across a real close + reopen, PmtreeConfig JSON parsing (serde_json). Assumed: the engine stand-in kani/stubs/sled '
              '(fault plan, atomic batch), the pmtree contract of unit pm_adapter (Err of an in-range mutator = storage failure), SledDB as seen by the adapter (meta_s / flushed_s). '
-             'put_batch is bounded (batches of 0 / 1 entries, std HashMap); new_with_tries is case-split over the number of lock conflicts. Known finding: reopen-restores-written-flags is C15.',
+             'put_batch is bounded (batches of 0 / 1 entries, std HashMap); SledDB::new / new_with_tries is NOT checked (out of reach of CBMC: nested to_string / format!). Known finding: reopen-restores-written-flags is C15.',
         design='DESIGN.md §4 C16'),
     'C19': dict(
         text='Operator helpers are loop-free / width-bounded: Kani harnesses over full-domain operands are complete proofs of circom semantics, canonical results and no panic.',
